@@ -293,6 +293,10 @@ func resolve(c *chain.Case, op cOp) sdk.Msg {
 	E := c.E
 	w, v := user(E, op.W).String(), user(E, op.V).String()
 	deadline := c.Time().Unix() + 1_000_000
+	if op.E == "@base" {
+		// the coin in which the service module expresses deposits and fee caps *now* (it is a parameter)
+		op.E = E.K.Service.BaseDenom(c.Ctx)
+	}
 	switch op.M {
 	// ------------------------------------------------------------------ coinswap
 	case "cs.add":
@@ -673,7 +677,7 @@ func genHTLCOp(t *rapid.T) cOp {
 func genServiceOp(t *rapid.T) cOp {
 	svc := rapid.SampledFrom([]string{"svc0", "svc0", "svc0", "svc1"}).Draw(t, "svc")
 	prov := rapid.IntRange(1, 3).Draw(t, "prov")
-	den := rapid.SampledFrom([]string{"stake", "stake", "stake", "stake", "btc"}).Draw(t, "den")
+	den := rapid.SampledFrom([]string{"stake", "stake", "@base", "@base", "btc"}).Draw(t, "den")
 	switch rapid.IntRange(0, 20).Draw(t, "svcop") {
 	case 0:
 		return cOp{M: "svc.define", W: rapid.IntRange(0, 2).Draw(t, "w"), D: rapid.SampledFrom([]string{"svc1", "svc2", "svc0"}).Draw(t, "name")}
@@ -707,6 +711,11 @@ func genServiceOp(t *rapid.T) cOp {
 	case 17:
 		return cOp{M: "svc.updateContext", W: 0, K: rapid.IntRange(0, 3).Draw(t, "which"), E: den, A: rapid.SampledFrom([]string{"0", "5", "1000"}).Draw(t, "cap"),
 			N: rapid.SampledFrom([]int64{0, 2, 3, 100, 101}).Draw(t, "timeout"), B: rapid.SampledFrom([]string{"0", "3", "200"}).Draw(t, "freq")}
+	case 19:
+		// a provider of the running repeated context re-prices its binding in the coin that is the base denom now and
+		// tops its deposit up in that coin (the context keeps the fee cap it was created with)
+		return cOp{M: "svc.updateBinding", W: rapid.IntRange(1, 2).Draw(t, "repricer"), D: "svc0", E: "@base", A: "1000000000000",
+			B: rapid.SampledFrom([]string{"1", "3"}).Draw(t, "reprice"), N: 0}
 	default:
 		return cOp{M: "svc.withdrawEarned", W: prov}
 	}
